@@ -276,3 +276,7 @@ def run(repo: Repo, rep: Report, tier: str) -> None:
             rep.check(not bad10, "C20-R10", f"{cf10.short}: parser receives the source with its leading lines", t10[:60] if not bad10 else
                       f"`{t10[:60]}` removes leading blank lines: `\\\\n\\\\nSignal a = 1;` is labelled line 1 instead of line 3", cf10.loc(c))
     rep.floor("C20-R10", "parse calls in the compile functions", n10, 2)
+
+    # ---------------- R11 --------------------------------------------------------------
+    _borrow20(repo, rep, "C16", "C16-R3", "C20-R11", "a top-level name keeps pointing at its own value when a loop body declares a local of the same name: the name table is given back "
+              "the outer value for every name an iteration declares", select=lambda o: "iteration's own names" in o.construct or "outer ASTLowerer.signal_refs value back" in o.construct, floor=2)
